@@ -326,7 +326,7 @@ func init() {
 		PID: "C09", PLevel: "exploration",
 		RuleText: "each scenario = a small pipeline (both engines, 1-2 sources x 1-2 destinations, optional parallel workers) with exactly ONE hostile injection drawn from: processor reply shapes {more results, extra error, extra split, zero results, nil entry, changed position, empty position, ErrorRecord with nil error, empty split, 1-piece split, short result} with and without a condition on the processor (every match pattern), attached to source/pipeline/destination; destination ack shapes {wrong position, extra ack, missing ack, swapped acks, empty response, stream error}; source record shapes {empty position, duplicate position}; an error or a PANIC from Configure/Open/Stop/Teardown/LifecycleOnCreated of a source, destination or DLQ plugin. Each case runs in a child process. Judged: the process survives (a reproduced death = violation), the run settles (a case exceeding its watchdog twice, the second time alone = wedge), every source ack is still justified (delivered / dead-lettered / filtered; records inside a hostile processor call are exempt from the reference model), no empty position is acked, conditional processors stay aligned (stamp iff condition matches) and pass-through records stay in place. Non-trivial: the hostile reply was actually delivered to the engine; distinct = distinct (engine, topology, hostile kind).",
 		Assume:   []string{"a plugin that never answers (missing ack) is outside the property's premise: such runs are ended by a force stop and only the safety clauses are judged", "a plugin panicking inside its own Run goroutine is outside the premise"},
-		Quick:    320, Thorough: 10000, HangIsViol: true, DeathIsViol: true,
+		Quick:    320, Thorough: 3200, HangIsViol: true, DeathIsViol: true,
 		PointBias: []string{"funnel.worker.ack", "funnel.worker.nack", "funnel.multiack.ack", "funnel.multiack.nack"},
 		Anchors:   []string{"pkg/processor/runnable_processor.go", "pkg/processor/processor_condition.go", "pkg/lifecycle-poc/funnel/processor.go", "pkg/lifecycle-poc/funnel/worker.go", "pkg/lifecycle-poc/funnel/destination.go", "pkg/lifecycle/stream/processor.go", "pkg/lifecycle/stream/destination_acker.go", "pkg/plugin/connector/builtin/sandbox.go"},
 		Gen:       gen, Judge: judge,
